@@ -137,6 +137,33 @@ def t_sum(fn, params, operands):
     return out, Cop(n, [(0, list(range(n)))], ("lin", [ones(n)], zeros(n)), (n_out, key)), False
 
 
+def t_maxmin(fn, params, operands):
+    """max / min reduction: the output element IS the (unique) extreme element of its group -> a gather.  Groups with ties are refused
+    (which of the tied elements receives the gradient is NumPy's first-occurrence convention, not part of the property)."""
+    (s, a), = operands
+    axis, keepdims = params.get("axis"), bool(params.get("keepdims", False))
+    ax = tuple(axis) if isinstance(axis, list) else axis
+    f = np.max if fn == "max" else np.min
+    out = np.asarray(f(a, axis=ax, keepdims=keepdims))
+    if a.ndim == 0:
+        return out, Cop(1, [(0, [0])], ("lin", [[1]], [0]), None), False
+    red = _axis_tuple(ax, a.ndim)
+    keep = tuple(i for i in range(a.ndim) if i not in red)
+    I = idx_of(s)
+    perm = keep + red
+    kshape = tuple(s[i] for i in keep)
+    Z = np.transpose(a, perm).reshape(kshape + (-1,))
+    ZI = np.transpose(I, perm).reshape(kshape + (-1,))
+    ext = f(Z, axis=-1, keepdims=True)
+    if Z.shape[-1] == 0 or np.any(np.sum(Z == ext, axis=-1) != 1):
+        raise ValueError("tie")
+    k = np.argmax(Z == ext, axis=-1)
+    sel = np.take_along_axis(ZI, k[..., None], axis=-1)[..., 0]
+    m = flat(sel)
+    n = len(m)
+    return out, Cop(n, [(0, m)], ("lin", [ones(n)], zeros(n)), None), False
+
+
 def t_cumsum(fn, params, operands):
     (s, a), = operands
     axis = params["axis"] % a.ndim
@@ -299,6 +326,8 @@ for _f in ("negative", "positive", "square", "abs", "relu"):
 TRANSLATORS["where"] = t_where
 TRANSLATORS["sum"] = t_sum
 TRANSLATORS["cumsum"] = t_cumsum
+TRANSLATORS["max"] = t_maxmin
+TRANSLATORS["min"] = t_maxmin
 for _f in ("getitem", "reshape", "transpose", "swapaxes", "moveaxis", "squeeze", "expand_dims", "broadcast_to", "ravel", "flatten", "repeat", "roll"):
     TRANSLATORS[_f] = t_gatherlike
 for _f in ("concatenate", "stack"):
